@@ -180,7 +180,7 @@ namespace Givaro {
 
     void* GivMMFreeList::resize (void* src, const size_t oldsize, const size_t newsize)
     {
-        if (src ==0) return _allocate(newsize) ;
+        if (src ==0) return _allocate(newsize)->data ;
         if (newsize <= oldsize) return src;
         BlocFreeList* tmp = reinterpret_cast<BlocFreeList*>(((char*)src)-sizeof(BlocFreeList)+sizeof(int64_t));
 #ifdef __GIVARO_DEBUG
